@@ -4,6 +4,10 @@ import json, os, sys
 ROOT = os.path.dirname(os.path.dirname(os.path.abspath(__file__)))
 
 CHECKS = {
+    "C03": dict(level="model_checking", engine="E4 heap_check + E6 real ovnidump/ovniemu", ref="DESIGN.md 5 (C03)",
+                technique="exhaustive enumeration: every insert/pop sequence on heap.h up to a length with structural invariants; every set of small streams through the real ovnidump and (with every offset table) the real ovniemu, compared with an independent merge; every directory creation order",
+                text="heap.h: all 350k/5.6M sequences of insert(0..2)/pop up to length 9/11 keep a complete tree with correct back-pointers and heap order, pop returns a maximal element and nothing is lost. ovnidump: for every set of <= 3 streams with <= 2/3 events and clocks in {0,1,(5),3e9+1} (incl. empty streams, equal clocks across streams, gaps > 2^31 ns) and 4-7 tiny streams, the output is a permutation of all events, keeps the order inside each stream and is non-decreasing. ovniemu: thread life-cycles on <= 3 streams x loom/host layouts (two looms of one host included) x every offset vector over {-2,0,3}: Paraver times equal corrected time minus the first corrected time. All 6 creation orders of 27 traces give byte-identical output.",
+                note="Trusted: lib/obs.py writer, lib/pv.py. <= 7 streams; corrected clocks kept positive; ties across streams may be replayed in any order."),
     "C04": dict(level="model_checking", engine="E3 emu_server + TLC", ref="DESIGN.md 5 (C04+C05)",
                 technique="explicit-state model checking: TLC state graph of tla/ThreadCpu.tla walked edge-by-edge and non-edge-by-non-edge on the real emulator (fork-checkpoint server), plus binding pass through the real ovniemu binary",
                 text="Every reachable state of the TLA+ thread/CPU model (invariants checked by TLC) is reached on the real emulator and every OH*/OA* event of the alphabet is probed there: an OH* event must be accepted iff it is an edge, the thread rows must display exactly the model state, finish must succeed iff all threads are dead. Exhaustive for <=3 threads, <=2 looms, <=2 physical CPUs per loom.",
